@@ -347,6 +347,9 @@ def gen_history(world: World, kind: str, length: int, weights=None, irregular_bi
 
     if not construct(main, must_succeed=True):
         return None
+    if digital:
+        # an empty 2-D array carries its own column count: from here on the history uses the waveform's real signal count
+        ncols = world.objs[main][1].signal_count
     ops = weights or {"appa": 4, "appw": 3, "load": 3, "setcount": 2, "setcap": 2, "settiming": 2, "write": 2, "get": 2,
                       "pickle": 1, "bad": 2}
     names = list(ops)
